@@ -138,6 +138,9 @@ func runCodecCase(c *codecCase, dp *dict.Parser) codecLine {
 			l.Rerr = err.Error()
 			return
 		}
+		// further traffic before the message is looked at: what was read must not live in a buffer the
+		// library hands out again
+		poisonPools(dp)
 		l.DHdr = abs.HdrFromGo(rm.Header)
 		l.DLen = int(rm.Header.MessageLength)
 		l.DAVPs = abs.FromGoList(rm.AVP)
